@@ -163,11 +163,27 @@ func (p *Prog) BuildQueryCOI(o *Obligation) (string, bool) {
 		return "", false
 	}
 	asserts = append(asserts, Not(o.Goal))
-	asserts = append(asserts, p.unfoldInstances([]*Term{o.Goal}, unfoldFuel, 40)...)
+	asserts = append(asserts, p.unfoldFor(o, asserts)...)
 	if !o.noLemmas {
 		asserts = append(asserts, p.lemmaAxioms()...)
 	}
 	return p.buildScript(asserts, nil), true
+}
+
+// unfoldFor: instances for the applications in the goal (with fuel), plus one unfolding of the
+// applications in the most recent hypotheses (loop invariants / induction hypotheses of the last calls).
+func (p *Prog) unfoldFor(o *Obligation, asserts []*Term) []*Term {
+	out := p.unfoldInstances([]*Term{o.Goal}, unfoldFuel, 40)
+	if !p.mentionsHeavy(o.Goal, map[int]bool{}) {
+		return out
+	}
+	// recent facts: walk backwards, stop after a few instances
+	var recent []*Term
+	for i := len(asserts) - 2; i >= 0 && len(recent) < 12; i-- {
+		recent = append(recent, Implies(o.Goal.Args0(), asserts[i]))
+	}
+	out = append(out, p.unfoldInstances(recent, 1, 10)...)
+	return out
 }
 
 // BuildQueryLight drops the hypotheses that mention the evaluation-spec family (sound: fewer
@@ -234,7 +250,7 @@ func (p *Prog) relevantFacts(o *Obligation) []*Term {
 func (p *Prog) BuildQuery(o *Obligation, getModel []string) string {
 	asserts := append([]*Term{}, p.relevantFacts(o)...)
 	asserts = append(asserts, Not(o.Goal))
-	asserts = append(asserts, p.unfoldInstances([]*Term{o.Goal}, unfoldFuel, 40)...)
+	asserts = append(asserts, p.unfoldFor(o, asserts)...)
 	if !o.noLemmas {
 		asserts = append(asserts, p.lemmaAxioms()...)
 	}
@@ -245,6 +261,28 @@ func (p *Prog) BuildQuery(o *Obligation, getModel []string) string {
 // translated recursive spec functions for the applications occurring in the assertions
 // ("fuel"-bounded). Adding true instances only strengthens the hypotheses.
 func (p *Prog) unfoldInstances(asserts []*Term, fuel int, limit int) []*Term {
+	// equalities t == literal that hold on the path of the goal (goal = guard => P): used to
+	// simplify the unfolded bodies (e.g. the node-type dispatch of specEval collapses to one clause)
+	known := map[*Term]*Term{}
+	for _, g := range asserts {
+		if g.Head == "=>" && len(g.Args) == 2 {
+			var conj []*Term
+			if g.Args[0].Head == "and" {
+				conj = g.Args[0].Args
+			} else {
+				conj = []*Term{g.Args[0]}
+			}
+			for _, c := range conj {
+				if c.Head == "=" && len(c.Args) == 2 {
+					if isIntLitTerm(c.Args[1]) && !isIntLitTerm(c.Args[0]) {
+						known[c.Args[0]] = c.Args[1]
+					} else if isIntLitTerm(c.Args[0]) && !isIntLitTerm(c.Args[1]) {
+						known[c.Args[1]] = c.Args[0]
+					}
+				}
+			}
+		}
+	}
 	var out []*Term
 	done := map[int]bool{}
 	frontier := asserts
@@ -275,7 +313,11 @@ func (p *Prog) unfoldInstances(asserts []*Term, fuel int, limit int) []*Term {
 			for i, f := range sd.Formals {
 				m[f] = a.Args[i]
 			}
-			inst := Eq(a, Subst(sd.Body, m))
+			body := Subst(sd.Body, m)
+			if len(known) > 0 {
+				body = Subst(body, known)
+			}
+			inst := Eq(a, body)
 			out = append(out, inst)
 			next = append(next, inst)
 		}
@@ -457,7 +499,7 @@ func (p *Prog) axiomText(ufs map[string]bool) string {
 		lt := ""
 		switch es {
 		case SF64:
-			lt = "(or (fp.lt (select (%[2]s a n) j) (select (%[2]s a n) i)) (and (fp.isNaN (select (%[2]s a n) j)) (not (fp.isNaN (select (%[2]s a n) i)))))"
+			lt = "(or (f64.lt (select (%[2]s a n) j) (select (%[2]s a n) i)) (and (fp.isNaN (select (%[2]s a n) j)) (not (fp.isNaN (select (%[2]s a n) i)))))"
 		case SStr:
 			lt = "(gs.lt (select (%[2]s a n) j) (select (%[2]s a n) i))"
 		}
@@ -512,6 +554,13 @@ type solveResult struct {
 
 // runPortfolio runs all solvers on the query in parallel; first definitive answer wins.
 func runPortfolio(query string, timeout time.Duration, dir string, tag string, waitAll bool) solveResult {
+	return runPortfolioWith(solvers, query, timeout, dir, tag, waitAll)
+}
+
+// the configurations that win most often; used for the first (sliced) attempt
+var fastSolvers = []solverSpec{solvers[0], solvers[1], solvers[3]}
+
+func runPortfolioWith(solvers []solverSpec, query string, timeout time.Duration, dir string, tag string, waitAll bool) solveResult {
 	f := filepath.Join(dir, tag+".smt2")
 	os.WriteFile(f, []byte(query), 0o644)
 	ctx, cancel := context.WithTimeout(context.Background(), timeout)
@@ -625,7 +674,7 @@ func (p *Prog) dischargeAll(obls []*Obligation, timeout time.Duration, dir strin
 			tag := fmt.Sprintf("q%04d", i)
 			if coi[i] != "" {
 				// first only the hypotheses in the goal's cone of influence
-				rc := runPortfolio(coi[i], timeout/2, dir, tag+"c", false)
+				rc := runPortfolioWith(fastSolvers, coi[i], timeout, dir, tag+"c", false)
 				if rc.verdict == "unsat" {
 					mu.Lock()
 					o.Verdict, o.Solver, o.Secs, o.Output = rc.verdict, rc.solver+"(coi)", rc.secs, rc.output
@@ -633,9 +682,9 @@ func (p *Prog) dischargeAll(obls []*Obligation, timeout time.Duration, dir strin
 					return
 				}
 			}
-			if light[i] != "" {
+			if light[i] != "" && coi[i] == "" {
 				// first without the evaluation-spec hypotheses: unsat there is unsat with them
-				rl := runPortfolio(light[i], timeout, dir, tag+"l", false)
+				rl := runPortfolioWith(fastSolvers, light[i], timeout, dir, tag+"l", false)
 				if rl.verdict == "unsat" {
 					mu.Lock()
 					o.Verdict, o.Solver, o.Secs, o.Output = rl.verdict, rl.solver+"(sliced)", rl.secs, rl.output
@@ -665,5 +714,5 @@ var unfoldFuel = func() int {
 		fmt.Sscanf(v, "%d", &n)
 		return n
 	}
-	return 1
+	return 2
 }()
